@@ -75,25 +75,42 @@ def rule_renaming(ctx):
     n = a10.check(ctx, R, UV, "visit_statement", None, AST, "Statement", {"visit_statement", "visit_expression"}, scrutinee="stmt")
     n += a10.check(ctx, R, UV, "visit_expression", None, AST, "Expression", {"visit_expression"}, scrutinee="expr")
     ctx.floor(R, "children", n, 30)
-    # renaming sites:  *x = match env.get_current_version(x) { Some(version) => format!("{x}.{version}"), None => x.. }
+    # renaming sites, in either spelling:
+    #   *x = match env.get_current_version(x) { Some(version) => format!("{x}.{version}"), None => x.clone() }
+    #   if let Some(version) = env.get_current_version(x) { *x = format!("{x}.{version}") }
     sites = 0
+    from astlib import block_tail
+
+    def fmt_of(e, tgt, vb):
+        fm = render(strip(e)).replace(" ", "")
+        return re.fullmatch(r'format!\("\{%s\}\.\{%s\}"\)' % (re.escape(tgt), vb), fm) is not None or re.fullmatch(r'format!\("\{\}\.\{\}",%s,%s\)' % (re.escape(tgt), vb), fm) is not None
+
     for fname in ("visit_statement", "visit_expression"):
         fn = find_fn(UV, fname)
         if fn is None:
             continue
         for a in walk(fn["body"]):
-            if a["k"] == "Assign" and a["l"]["k"] == "Unary" and a["r"]["k"] == "Match":
-                tgt = render(a["l"]["e"])
+            if a["k"] != "Assign" or a["l"]["k"] != "Unary" or a["l"].get("op") != "*":
+                continue
+            tgt = render(a["l"]["e"])
+            if a["r"]["k"] == "Match":
                 scr = render(a["r"]["scrut"]).replace(" ", "")
                 sites += 1
-                from astlib import block_tail
-                arms = {render(x["pat"]).replace(" ", ""): render(strip(block_tail(x["body"]) if x["body"]["k"] == "Block" and block_tail(x["body"]) is not None else x["body"])).replace(" ", "") for x in a["r"]["arms"]}
+                arms = {render(x["pat"]).replace(" ", ""): (strip(block_tail(x["body"]) if x["body"]["k"] == "Block" and block_tail(x["body"]) is not None else x["body"])) for x in a["r"]["arms"]}
                 some_arm = [k for k in arms if re.fullmatch(r"Some\((\w+)\)", k)]
                 vb = re.fullmatch(r"Some\((\w+)\)", some_arm[0]).group(1) if len(some_arm) == 1 else "?"
-                fm = arms.get(some_arm[0], "") if some_arm else ""
-                fmt_ok = re.fullmatch(r'format!\("\{%s\}\.\{%s\}"\)' % (tgt, vb), fm) is not None or re.fullmatch(r'format!\("\{\}\.\{\}",%s,%s\)' % (tgt, vb), fm) is not None
-                ok = scr == "env.get_current_version(%s)" % tgt and fmt_ok and arms.get("None") in ("%s.to_string()" % tgt, "%s.clone()" % tgt, tgt)
-                ctx.check(R, "%s/rename[%s]" % (fname, tgt), ok, "%s = match %s { %s }" % (tgt, scr, arms), site(UV, a))
+                fmt_ok = bool(some_arm) and fmt_of(arms[some_arm[0]], tgt, vb)
+                none_ = render(arms["None"]).replace(" ", "") if "None" in arms else None
+                ok = scr == "env.get_current_version(%s)" % tgt and fmt_ok and none_ in ("%s.to_string()" % tgt, "%s.clone()" % tgt, tgt)
+                ctx.check(R, "%s/rename[%s]" % (fname, tgt), ok, "%s = match %s { %s }" % (tgt, scr, {k: render(v) for k, v in arms.items()}), site(UV, a))
+            elif a["r"]["k"] == "Macro":
+                cs = conditions_to(fn["body"], a) or []
+                vbs = [re.fullmatch(r"Some\((\w+)\)", render(c[1]).replace(" ", "")) for c in cs if c[0] == "iflet" and c[3] and render(strip(c[2])).replace(" ", "") == "env.get_current_version(%s)" % tgt]
+                vbs = [m_.group(1) for m_ in vbs if m_]
+                if not vbs:
+                    continue  # not a renaming through the scoped version (the Declaration arm is checked below)
+                sites += 1
+                ctx.check(R, "%s/rename[%s]" % (fname, tgt), fmt_of(a["r"], tgt, vbs[-1]), "if let Some(%s) = env.get_current_version(%s) { %s }" % (vbs[-1], tgt, render(a)[:80]), site(UV, a))
     ctx.floor(R, "renaming sites", sites, 3)
     # Declaration: name replaced by name.version on Some(version)
     fn = find_fn(UV, "visit_statement")
@@ -176,8 +193,10 @@ def rule_shadowing(ctx):
     if ok:
         ctx.check(R, "Declaration/lookup-before-record", line_of(get[0]) < line_of(add[0]), "the previous declaration must be looked up before the new one replaces it", site(UV, arm[0]))
         cs = [fact_str(c).replace(" ", "") for c in (conditions_to(body, push[0]) or [])]
-        ctx.check(R, "Declaration/report-iff-visible-declaration", cs == ["(letSome(declaration)=env.get_declaration(name))"], "report under %s" % cs, site(UV, push[0]))
-        ctx.check(R, "Declaration/report-names-both-declarations", render(push[0]["args"][0]).replace(" ", "") == "build_report(name,meta,declaration)", render(push[0])[:100], site(UV, push[0]))
+        mdecl = re.fullmatch(r"\(letSome\((\w+)\)=env\.get_declaration\(name\)\)", cs[0]) if len(cs) == 1 else None
+        dname = mdecl.group(1) if mdecl else "declaration"
+        ctx.check(R, "Declaration/report-iff-visible-declaration", mdecl is not None, "report under %s" % cs, site(UV, push[0]))
+        ctx.check(R, "Declaration/report-names-both-declarations", render(push[0]["args"][0]).replace(" ", "") == "build_report(name,meta,%s)" % dname, render(push[0])[:100], site(UV, push[0]))
         ca = [fact_str(c) for c in (conditions_to(body, add[0]) or []) if c[0] != "arm"]
         ctx.check(R, "Declaration/always-recorded", not ca, "add_declaration under %s" % ca, site(UV, add[0]))
         ctx.check(R, "Declaration/recorded-under-the-source-name", render(strip(add[0]["args"][0])) == "name" and line_of(add[0]) <= min([line_of(a) for a in walk(body) if a["k"] == "Assign" and render(a["l"]).replace(" ", "") == "*name"] or [10 ** 9]), "the declaration is recorded under the name as written, before the renaming", site(UV, add[0]))
